@@ -11,6 +11,9 @@ structure St where
   handle : Handle := ⟨⟨[], none⟩, [], 0, []⟩
   specs : List (String × LogSpec) := []          -- named specs
   sched : List (Nat × LogSpec × Nat) := []       -- C12: pending B steps (thread, spec, gate value)
+  lock : Option Nat := none                      -- C12: lock holder
+  waiting : List (Nat × LogSpec) := []
+  gateOf : List (Nat × Nat) := []
 
 def filtersStr (fs : List MF) : String :=
   if fs.isEmpty then "-" else
@@ -189,6 +192,21 @@ def step (st : St) (toks : List String) : St × String :=
         ({ st with handle := { st.handle with gate := g }, sched := st.sched.filter (·.1 ≠ tid) }, "ok")
       | none => (st, "bad-op")
     | none => (st, "bad-op")
+  | ["CSTART", tid, id] =>
+    match tid.toNat?, getSpec st id with
+    | some tid, some s =>
+      let (c, ok) := (CState.mk st.handle st.lock st.waiting st.gateOf).step (.start tid s)
+      ({ st with handle := c.handle, lock := c.lock, waiting := c.waiting, gateOf := c.gateOf },
+        if ok then "ok" else "blocked")
+    | _, _ => (st, "bad-op")
+  | ["CFINISH", tid] =>
+    match tid.toNat? with
+    | some tid =>
+      let (c, ok) := (CState.mk st.handle st.lock st.waiting st.gateOf).step (.finish tid)
+      ({ st with handle := c.handle, lock := c.lock, waiting := c.waiting, gateOf := c.gateOf },
+        if ok then "ok" else "blocked")
+    | none => (st, "bad-op")
+  | "CQUIET" :: _ => (st, handleStr st.handle)
   | ["HANDLE"] => (st, handleStr st.handle)
   | _ => (st, "bad-op")
 
